@@ -29,6 +29,8 @@
 #include <sys/types.h>
 
 #include "lib/efuns/file_utils.h"
+#include "lib/efuns/ed.h"
+extern interactive_t *create_test_interactive (object_t * ob);
 
 /* no symbolizer: it would open /proc/self/exe etc. through the interposed functions while a case is armed */
 const char *__asan_default_options (void) { return "symbolize=0"; }
@@ -787,6 +789,50 @@ static int c15_cmd (char *line)
 	vh_out ("call %s /c15/obj [%s] [%s]", a[0], a[1], a[2]);
       else
 	vh_out ("call %s /c15/obj [%s]", a[0], a[1]);
+      if (!strcmp (a[0], "ed"))
+	{
+	  /* ed (file) by an interactive user, then the editor commands "w <b>" (when b starts with '/') and "Q" */
+	  error_context_t econ;
+	  char *b = a[2];
+	  a[2] = (char *) "";
+	  if (!ob->interactive)
+	    create_test_interactive (ob);
+#ifdef O_IS_WIZARD
+	  ob->flags |= O_IS_WIZARD;	/* unrestricted ed: "w <file>" is allowed */
+#endif
+	  command_giver = ob;
+	  fs_armed = 1;
+	  vh_apply_str (ob, "do_efun", 3, a, 0, 0);
+	  if (ob->interactive && ob->interactive->ed_buffer)
+	    {
+	      char cmd[4300];
+	      save_context (&econ);
+	      if (!setjmp (econ.context))
+		{
+		  command_giver = ob;
+		  if (b[0] == '/')
+		    {
+		      snprintf (cmd, sizeof cmd, "w %s", b);
+		      ed_cmd (cmd);
+		    }
+		  command_giver = ob;
+		  if (ob->interactive && ob->interactive->ed_buffer)
+		    {
+		      snprintf (cmd, sizeof cmd, "Q");	/* ed_cmd () appends to its argument */
+		      ed_cmd (cmd);
+		    }
+		  pop_context (&econ);
+		}
+	      else
+		{
+		  restore_context (&econ);
+		  pop_context (&econ);
+		}
+	    }
+	  fs_armed = 0;
+	  command_giver = 0;
+	  return 1;
+	}
       fs_armed = 1;
       vh_apply_str (ob, "do_efun", 3, a, 0, 0);
       fs_armed = 0;
